@@ -54,7 +54,7 @@ type Contract struct {
 	FrameSkip []string // component prefixes exempt from frame obligations (ghost)
 }
 
-var clauseRe = regexp.MustCompile(`^(requires|ensures|invariant|loop|modifies|let|inline|assumed|func|decreases|ghost|note|tags|safety|mode)\b(.*)$`)
+var clauseRe = regexp.MustCompile(`^(requires|ensures|invariant|loop|modifies|let|inline|assumed|func|decreases|ghost|note|tags|safety|mode|noframe)\b(.*)$`)
 var tagRe = regexp.MustCompile(`^\[([^\]]*)\]\s*(.*)$`)
 
 func parseContractFile(path string) (map[string]*Contract, error) {
@@ -130,6 +130,9 @@ func parseContractFile(path string) (map[string]*Contract, error) {
 			}
 		case "mode":
 			cur.Mode = rest
+		case "noframe":
+			cur.NoFrame = true
+			cur.HasBody = true
 		case "inline":
 			cur.Inline = true
 		case "assumed":
